@@ -19,7 +19,7 @@ BOUNDS = {"quick": {"nodes": 4, "cers": 2, "invalid": 9}, "thorough": {"nodes": 
 def describe(tier):
     b = BOUNDS[tier]
     return {
-        "rule": f"every AHB tree shape with <= {b['nodes']} nodes (value pools with 2-3 entries count their entries as fault sites) x EVERY "
+        "rule": f"every AHB tree shape with <= {b['nodes']} nodes (value pools with 1, 2 and 3 entries count their entries as fault sites) x EVERY "
                 f"non-empty subset of fault sites (groups, segments, free-text elements, value-pool entries) carrying one of the first "
                 f"{b['invalid']} invalid expressions {INVALID} (single- and multi-part, invalid part first or last) x base labellings "
                 f"rotating through {BASE_LABELS} x {b['cers']} content evaluation results. Oracle: no exception; every faulty segment-level / "
@@ -91,7 +91,8 @@ def _model(shape, base_rot, variant):
     groups = H.model_from(shape, exprs, variant)
     for node in R7.nodes(groups):
         if node["kind"] == "pool":
-            node["entries"] = [{"q": "A", "expr": "X [1]"}, {"q": "B", "expr": "X [2]"}] + ([{"q": "C", "expr": "X"}] if variant % 2 else [])
+            node["entries"] = [{"q": "A", "expr": "X [1]"}] if variant == 2 else \
+                [{"q": "A", "expr": "X [1]"}, {"q": "B", "expr": "X [2]"}] + ([{"q": "C", "expr": "X"}] if variant % 2 else [])
     return groups
 
 
@@ -185,7 +186,8 @@ def run_item(item):
         r.sample({"orders": item, "schedules": exp.schedules})
         return r
     shape = [s for s in T.shapes(item["nodes"])][item["shape"]]
-    for variant in (0, 1):
+    has_pool = "P" in repr(shape)
+    for variant in (0, 1, 2) if has_pool else (0, 1):  # variant 2: value pools with exactly ONE entry
         nsites = len(_sites(_model(shape, 0, variant)))
         k = 0
         for size in range(1, nsites + 1):
